@@ -30,7 +30,10 @@ def run(tier, seed, t0):
     if tier == "quick":
         cases, info = vlib.gen_cases("GEN_Adv", "GEN_Adv.cfg", timeout=1800, xmx="8g")
         # from the idle base: every sequence of length <= 2, every third of length 3
-        cases = [c for i, c in enumerate(cases) if len(c) <= 2 or i % 3 == seed % 3]
+        # ... and every sequence of length 3 that ends with a close of either level (the drains meet whatever
+        # state the first two frames built up, e.g. a full reply queue)
+        closing = {"connclose", "chclose", "conncloseok", "chcloseok"}
+        cases = [c for i, c in enumerate(cases) if len(c) <= 2 or c[-1]["k"] in closing or i % 3 == seed % 3]
         # from the collector states "after Deliver / after the header / mid-body": every sequence <= 2
         cases2, info2 = vlib.gen_cases("GEN_Adv", "GEN_Adv_bases.cfg", timeout=1800, xmx="8g")
         cases += cases2
